@@ -5,7 +5,13 @@
    broker response at each poll / answer, any timing of the data channel against the 20 s timer).
    V1 is the repaired code (proposed-fixes/C16-release-once.diff), V0 the pinned code.
    in_use = sessions whose tokens.get() completed and for which tokens.ret() has not been called;
-   n_active = clients being negotiated with or served. *)
+   n_active = clients being negotiated with or served.
+   The second half of the file states "polls again with full capacity" in its general form, at every reachable state
+   (slot accounting, when the poll loop is enabled, and that no session can hold a slot with nothing left to run).
+   The machine's LDcOpen is "close(dataChan); go handler(...)" as ONE step: a callback that closed dataChan and then
+   returned without starting the handler (what a nil webRTCConn.RemoteAddr() must not cause) is outside the machine and
+   is what the O<x>/Q<x> cases of the correspondence (clients whose offer has no non-local address, no candidates, ...)
+   look for in the Go code. *)
 From Coq Require Import List ZArith Arith Bool.
 From Snow Require Import Model.Tokens Model.ProxySession Proofs.ProxySessionProofs Proofs.ProxySessionLiveProofs.
 Import ListNotations.
